@@ -82,7 +82,8 @@ def signature(mp: onnx.ModelProto):
     return ins, outs, sorted(n for n in init if n in {i.name for i in mp.graph.input})
 
 
-def check_model_pair(mp: onnx.ModelProto, spec, tname, tf, stats, loop_bound=3, want_sides=True):
+def check_model_pair(mp: onnx.ModelProto, spec, tname, tf, stats, loop_bound=3, want_sides=True, new=None,
+                     skip_if_first_fails=True):
     """-> record dict: verdict in {equiv, equiv_tol, cex, unknown, not_encoded, exception, unchanged}, side verdicts"""
     from vp.symonnx import equiv as Q
     from vp.symonnx import interp as I
@@ -92,7 +93,8 @@ def check_model_pair(mp: onnx.ModelProto, spec, tname, tf, stats, loop_bound=3, 
     rec = {"transformation": tname, "side": {}}
     orig_bytes = mp.SerializeToString()
     try:
-        new = tf(copy.deepcopy(mp))
+        if new is None:
+            new = tf(copy.deepcopy(mp))
     except Exception as e:  # noqa: BLE001 - totality is C04's business
         rec.update(verdict="exception", detail=f"{type(e).__name__}: {str(e)[:300]}", tb=traceback.format_exc()[-1200:])
         return rec
@@ -136,7 +138,7 @@ def check_model_pair(mp: onnx.ModelProto, spec, tname, tf, stats, loop_bound=3, 
             except Exception:  # noqa: BLE001
                 pass
             return None, None
-        v = Q.compare(r1, r2, inputs, stats, tol_fn=tol_fn, skip_if_first_fails=True)
+        v = Q.compare(r1, r2, inputs, stats, tol_fn=tol_fn, skip_if_first_fails=skip_if_first_fails)
         rec.update(verdict=v["verdict"], detail=v.get("detail", ""), kind=v.get("kind"), grid=v.get("grid"))
         rec["uf"] = sorted(set().union(*[r["uf"] for r in r1 + r2]))
         rec["numeric_nodes"] = sum(r.get("numeric_nodes", 0) for r in r1 + r2)
@@ -148,6 +150,9 @@ def check_model_pair(mp: onnx.ModelProto, spec, tname, tf, stats, loop_bound=3, 
                 feeds = {n: np.zeros(sh, dtype=DT(dt).numpy()) for n, dt, sh in spec}
             rep = R.replay_pair(orig_bytes, new_bytes, feeds)
             rec["replay"] = {k: rep.get(k) for k in ("reproduced", "difference", "ort_err_a", "ort_err_b", "reference_agrees")}
+            rec["orig_fails_only"] = bool(rep.get("ort_err_a")) and not rep.get("ort_err_b")
+            rec["new_fails_only"] = bool(rep.get("ort_err_b")) and not rep.get("ort_err_a")
+            rec["zero_dim_input"] = any(0 in sh for _, _, sh in spec)
             rec["replay_record"] = {
                 "engine": "S", "inputs": {n: {"dtype": DT(dt).name, "shape": list(sh), "values": feeds[n].tolist()} for n, dt, sh in spec},
                 "rebuild": {"kind": "pair", "transformation": tname, "model_a_b64": base64.b64encode(orig_bytes).decode(),
@@ -244,7 +249,16 @@ def diag_minmax_initializer_input(orig, new):
     return _count_nodes(orig, lambda n: n.op_type in ("Min", "Max") and any(i in both for i in n.input)) > 0
 
 
-DIAG = {"eps_identity": diag_eps_identity, "minmax_initializer_input": diag_minmax_initializer_input}
+def diag_widens_accepted_inputs(orig, new):
+    return True  # decided from the replay record in diagnose()
+
+
+def diag_flatten_zero_dim(orig, new):
+    return _count_nodes(orig, lambda n: n.op_type == "Flatten") > 0 and _count_nodes(new, lambda n: n.op_type == "Reshape") > 0
+
+
+DIAG = {"flatten_reshape_zero_dim": diag_flatten_zero_dim, "eps_identity": diag_eps_identity, "minmax_initializer_input": diag_minmax_initializer_input,
+        "widens_accepted_inputs": diag_widens_accepted_inputs}
 
 
 def diagnose(name, rec) -> bool:
@@ -252,6 +266,10 @@ def diagnose(name, rec) -> bool:
     rr = rec.get("replay_record") or {}
     rb = rr.get("rebuild") or {}
     if "model_a_b64" not in rb or name not in DIAG:
+        return False
+    if name == "widens_accepted_inputs":
+        return bool(rec.get("orig_fails_only"))
+    if name == "flatten_reshape_zero_dim" and not (rec.get("new_fails_only") and rec.get("zero_dim_input")):
         return False
     try:
         a = onnx.load_from_string(base64.b64decode(rb["model_a_b64"]))
